@@ -30,19 +30,19 @@ PROPERTY_META = {
     'C05': dict(not_covered='completeness (signer/verifier agreement), soundness of the verification equation, RSA padding, every scheme other than ECDSA verification '
                 '(EC-Schnorr, BLS, BBS, ZSS, CLS, PSS, vBNN, PoK/SoK, ring and homomorphic signatures), agreement with an independent implementation: these need the group/ring arithmetic of C03/C09'),
     'C07': dict(not_covered='text conversion (bn_read_str/bn_write_str: needs division), field/extension-field/point/target-group encoders and decoders, compression; '
-                'bn_write_bin is verified at 8-bit digits only (64-bit: time-out), bn_read_bin at both'),
+                'bn_write_bin is verified at 8-bit digits only (64-bit: time-out), bn_read_bin at both; fp_read_bin/ep_read_bin: guards only (the conversion, decompression and curve-equation arithmetic are abstract)'),
     'C08': dict(not_covered='everything that is not a unit of C01/C02/C07/C09/C15 (curve, pairing, protocol and hash modules, simultaneous/batch functions, recodings other than '
                 'bn_rec_win, md_hmac/kdf/xmd, cp_ecies_dec); ALLOC=DYNAMIC allocation-failure points; pointer arithmetic that leaves the object without a dereference is not flagged'),
     'C09': dict(not_covered='every modular / number-theoretic function and every recoding except bn_rec_win (bn_rec_slw/naf/tnaf/reg/jsf/glv/sac/frb): '
                 'their correctness rests on division/multiplication or was not reached'),
-    'C14': dict(not_covered='the compression functions (SHA-2 rounds), SHA256FinalBits/Finalize/ResultN glue, BLAKE2s, md_hmac, md_kdf/md_mgf, md_xmd, AES-CBC/PKCS#7: '
+    'C14': dict(not_covered='the compression functions (SHA-2 rounds), SHA256FinalBits/Finalize/ResultN glue, BLAKE2s, md_xmd, AES-CBC/PKCS#7; HMAC and KDF/MGF are verified over an abstract hash for bounded lengths only: '
                 'digest and cipher values can only be compared with a second transcription of the standard, which is not a contract on one program; the wrappers were not reached'),
     'C15': dict(not_covered='SHA-256 itself and hash_df values (the hash is abstract: uninterpreted for the generate path, frame-only for (re)seeding); '
                 'the output block framing of rand_gen; termination of bn_rand_mod; agreement with the CAVS vectors is the test-suite\'s job',
                 assumptions=['reseed counter < 2^31 - 600 (the int counter does not overflow)', 'bn_mod_basic: ASSUMED contract |result| < |modulus| (division not verified)']),
     'C19': dict(not_covered='control transfer after longjmp (handler body, finaliser on the exceptional path, rethrow chains): setjmp returning twice is not modelled by CBMC; '
                 'per-thread contexts (MULTI build); re-parameterisation equals fresh initialisation'),
-    'C20': dict(not_covered='every ladder / regular-recoding algorithm except ep_mul_monty (bn_mxp_monty, fp_exp_monty, ep_mul_lwreg, ed/eb/ep2 forms, gt_exp_sec); the callees of the ladder are trusted constant-time as units; '
+    'C20': dict(not_covered='every ladder / regular-recoding algorithm except ep_mul_monty and bn_mxp_monty (fp_exp_monty, ep_mul_lwreg, ed/eb/ep2 forms, gt_exp_sec); the callees of the ladder are trusted constant-time as units; '
                 'memory-address traces and what the compiler does to the source; goto-level branches only (a pure ?: or comparison expression counts as a select)'),
 }
 
